@@ -97,6 +97,18 @@ def _matches(sig: dict[str, Any], pattern: dict[str, Any]) -> bool:
     return True
 
 
+def _spread(vs: list[Violation], per_key: int = 4, cap: int = 120) -> list[Violation]:
+    """Keep a few violations per distinct (clause, signature) so that the replay file shows every kind."""
+    cnt: dict[str, int] = {}
+    out = []
+    for v in vs:
+        k = v.clause + json.dumps(v.sig, sort_keys=True, default=str)
+        cnt[k] = cnt.get(k, 0) + 1
+        if cnt[k] <= per_key and len(out) < cap:
+            out.append(v)
+    return out
+
+
 def finish(rep: Report) -> int:
     """Write evidence, print KNOWN-FINDING / VIOLATION lines, return exit code."""
     known = load_known(rep.property_id)
@@ -120,7 +132,7 @@ def finish(rep: Report) -> int:
         replay_path = REPLAYS / f"{rep.property_id}-{rep.tier}-{rep.seed}.json"
         replay_path.write_text(json.dumps(
             {"property": rep.property_id, "tier": rep.tier, "seed": rep.seed,
-             "violations": [{"clause": v.clause, "sig": v.sig, "detail": v.detail} for v in new[:50]],
+             "violations": [{"clause": v.clause, "sig": v.sig, "detail": v.detail} for v in _spread(new)],
              "n_violations": len(new)}, indent=1, default=str))
     cov: dict[str, Any] = {
         "states": max(rep.states, 0),
